@@ -52,6 +52,15 @@ fn run_explicit(case: &Case, ctx: &Ctx) -> Outcome {
 }
 
 
+/// what a re-entering simulated reader does before it answers: one small decode of each kind on
+/// the calling thread (results ignored; a panic here is the decoder's)
+fn reenter_decodes() {
+    let _ = libhaystack::encoding::zinc::decode::from_str("{a:1 b:\"x\" c:@r \"d\" d:[2021-01-01,N]}");
+    let _ = serde_json::from_str::<libhaystack::val::Value>("{\"a\":{\"_kind\":\"ref\",\"val\":\"r\"},\"b\":[1,\"x\"]}");
+    let _ = libhaystack::filter::Filter::try_from("site and x == 1kW and a->b");
+}
+
 fn main() {
+    let _ = simio::REENTER.set(reenter_decodes);
     cli::main_with(engine_for, run_explicit);
 }
